@@ -100,6 +100,12 @@ Definition permutes (op : gather_op) (sigma : nat -> nat) : Prop :=
   (forall j, In j (idxs (g_out op)) ->
      exists i, g_phi op j = Some i /\ In i (idxs (g_in op)) /\ forall k, k < n -> nth (sigma k) i 0 = nth k j 0).
 
+(* closed forms of the axis maps (used to state the key laws): out axis k of movedim(s -> d) is in axis mv s d k;
+   out axis k of transpose(a, b) is in axis sw a b k *)
+Definition mv (s d k : nat) : nat :=
+  if k =? d then s else let k' := if k <? d then k else k - 1 in if k' <? s then k' else S k'.
+Definition sw (a b k : nat) : nat := if k =? b then a else if k =? a then b else k.
+
 (* torch.movedim(x, source, destination): output axis `destination` is input axis `source`,
    the other axes keep their relative order *)
 Definition legal_movedim (sh : shape) (s d : Z) : Prop :=
@@ -192,3 +198,16 @@ Definition spec_take0 (sh : shape) (ks : list Z) (op : gather_op) : Prop :=
     g_in op = sh /\ g_out op = length ks :: rest /\
     forall t r, In (t :: r) (idxs (g_out op)) ->
       g_phi op (t :: r) = Some (Z.to_nat (nth t ks 0%Z mod Z.of_nat d) :: r).
+
+(* ------------------------------------------------------------------ iteration: what one iterator yielded in a run *)
+(* the rows yielded to `next(it_k)` calls, in order, read off the observations of a run *)
+Fixpoint yields (k : nat) (evs : list iev) (obs : list iobs) : list nat :=
+  match evs, obs with
+  | Next k' :: es, ORow r :: os => if k' =? k then r :: yields k es os else yields k es os
+  | _ :: es, _ :: os => yields k es os
+  | _, _ => []
+  end.
+
+(* how many times next(it_k) was called *)
+Definition count_next (k : nat) (evs : list iev) : nat :=
+  length (filter (fun e => match e with Next k' => k' =? k | NewIter => false end) evs).
